@@ -262,6 +262,32 @@ pub struct BodySpec {
     pub secs: f64,
 }
 
+/// The same body with every lock acquisition as a scheduling point (see `sched::ALL_LOCKS`).
+pub struct AllLocks(pub Arc<dyn Body + Send>);
+
+impl Body for AllLocks {
+    fn name(&self) -> String {
+        format!("{} [all-locks]", self.0.name())
+    }
+    fn launch(&self, dir: &Path) -> Launched {
+        self.0.launch(dir)
+    }
+    fn progress_required(&self) -> bool {
+        self.0.progress_required()
+    }
+}
+
+/// Thorough tier: every body is explored a second time with the lock fast path switched off — acquiring a free lock
+/// is then a scheduling point as well, which covers code that touches shared state between its last hooked point and
+/// a lock acquisition (the quick tier assumes that stretch is local, except for the journal lock).
+pub fn with_variants(mut v: Vec<BodySpec>, tier: &str) -> Vec<BodySpec> {
+    if tier == "thorough" {
+        let extra: Vec<BodySpec> = v.iter().map(|b| BodySpec { body: Arc::new(AllLocks(b.body.clone())), bound: b.bound.min(2), secs: (b.secs / 2.0).max(20.0) }).collect();
+        v.extend(extra);
+    }
+    v
+}
+
 /// Site prefixes a body is focused on (None = every hooked site is a scheduling point).
 pub fn focus_of(name: &str) -> Option<Vec<&'static str>> {
     if name.contains("[focus:commit-path]") {
@@ -347,7 +373,7 @@ pub fn shard_main(args: &[String], bodies_of: &dyn Fn(&str, &str) -> Vec<BodySpe
     }
     mark_uncontrolled();
     install_sched_hooks();
-    let bodies = bodies_of(&args[0], &args[1]);
+    let bodies = with_variants(bodies_of(&args[0], &args[1]), &args[1]);
     let bi: usize = args[2].parse().unwrap_or(0);
     let shard: usize = args[3].parse().unwrap_or(0);
     let n: usize = args[4].parse().unwrap_or(1);
@@ -358,6 +384,7 @@ pub fn shard_main(args: &[String], bodies_of: &dyn Fn(&str, &str) -> Vec<BodySpe
         return 2;
     };
     *crate::sched::FOCUS.lock().unwrap() = focus_of(&b.body.name());
+    crate::sched::ALL_LOCKS.store(b.body.name().contains("[all-locks]"), std::sync::atomic::Ordering::SeqCst);
     let rep = explore_body(&*b.body, bound, Instant::now() + Duration::from_secs_f64(secs), (shard, n));
     let _ = std::fs::write(&out, serde_json::to_string(&rep.to_json()).unwrap());
     crate::explore::cleanup_scratch();
@@ -369,6 +396,7 @@ pub fn replay_schedule(body: &dyn Body, choices: &[usize]) -> i32 {
     mark_uncontrolled();
     install_sched_hooks();
     *crate::sched::FOCUS.lock().unwrap() = focus_of(&body.name());
+    crate::sched::ALL_LOCKS.store(body.name().contains("[all-locks]"), std::sync::atomic::Ordering::SeqCst);
     let x = run_once(body, choices);
     for l in trace_str(&x.trace, &x.names) {
         println!("  {l}");
